@@ -15,11 +15,11 @@ CHECKS = {
    note="Pairing-based encapsulation/decapsulation algebra and the policy-language parser are not covered; larger formulas outside the bound.",
    ref="§4 C20"),
  "C16": dict(
-   text="DLEQ proofs (zk/dleq) over an abstract group whose scalars are SMT reals: honest proofs verify for every key / randomness / batch (1, 2), altered components are refused unless the transcript hash collides; zk/qndleq: honest proof verifies and degenerate proofs are refused for every challenge value; OPRF Finalize hash input equals the RFC 9497 framing byte for byte (recorder hash) for every mode and input/info/element incl. empty info; NIST-curve scalar decoding is canonical (known finding: values >= N accepted). OPRF finalisation does not modify the stored blinds (finalising twice gives the same outputs).",
+   text="DLEQ proofs (zk/dleq) over an abstract group whose scalars are SMT reals: honest proofs verify for every key / randomness / batch (1, 2), altered components are refused unless the transcript hash collides; zk/qndleq: honest proof verifies and degenerate proofs are refused for every challenge value; OPRF Finalize hash input equals the RFC 9497 framing byte for byte (recorder hash) for every mode and input/info/element incl. empty info; NIST-curve scalar decoding is canonical (known finding: values >= N accepted). OPRF finalisation does not modify the stored blinds (finalising twice gives the same outputs). An evaluation whose proof is missing is refused with an error (no panic).",
    note="Hash, hash-to-scalar and element encoding are uninterpreted functions; qndleq with a concrete 64-bit modulus; OPRF blinding algebra, Schnorr (zk/dl) and OT are not covered; two known findings are listed in known_findings.json (qndleq security parameter taken from the proof; non-canonical P-curve scalars).",
    ref="§4 C16"),
  "C17": dict(
-   text="Shamir/Feldman secret sharing (secretsharing + math/polynomial real generic code) over an abstract field (SMT reals, z3 nlsat): t = 1, 2 (3 thorough), every secret / coefficients / distinct non-zero identifiers: t+1 shares recover the secret, t or fewer are refused, dealt shares verify, altered ones do not; threshold RSA: the integer Lagrange coefficient computeLambda is exact (lambda*den == Delta*num) for every set of k distinct players out of l (l=5,k=2,3; l=7,k=4 thorough), decided on the real math/big code with symbolic player indices; computePolynomial = exact integer polynomial (k = 14, player indices up to 30, powers beyond 2^63); CombineSignShares raises exactly the shares it multiplies in to |2*lambda(T,0,j)| of one set T of >= k players (three shares of a (5,2) sharing, arbitrary distinct indices, modular exponentiation recorded).",
+   text="Shamir/Feldman secret sharing (secretsharing + math/polynomial real generic code) over an abstract field (SMT reals, z3 nlsat): t = 1, 2 (3 thorough), every secret / coefficients / distinct non-zero identifiers: t+1 shares recover the secret, t or fewer are refused, dealt shares verify, altered ones do not; threshold RSA: the integer Lagrange coefficient computeLambda is exact (lambda*den == Delta*num) for every set of k distinct players out of l (l=5,k=2,3; l=7,k=4 thorough), decided on the real math/big code with symbolic player indices; computePolynomial = exact integer polynomial (k = 14, player indices up to 30, powers beyond 2^63); CombineSignShares raises exactly the shares it multiplies in to |2*lambda(T,0,j)| of one set T of >= k players (three shares of a (5,2) sharing, arbitrary distinct indices, modular exponentiation recorded). Signing (blinded or not) leaves the share and its cached exponent 2*Delta*s_i unchanged.",
    note="Abstract field of characteristic 0; element/scalar encodings not modelled; RSA exponentiation itself (Shoup's theorem) is an assumption; computeLambda for subsets whose products exceed 64 bits only shown natively.",
    ref="§4 C17"),
  "C01": dict(
@@ -55,11 +55,11 @@ CHECKS = {
    note="The Montgomery ladder is a recorder/uninterpreted function; ladderStep/diffAdd/double assembly not covered.",
    ref="§4 C06"),
  "C02": dict(
-   text="Signature-decoding strictness on the real ML-DSA/Dilithium code of all six parameter sets: accepted iff the length is exactly SignatureSize (symbolic challenge and appended bytes), hint decoding equals FIPS 204 Alg. 21 (one accepted encoding per hint vector; shared with C04), eddilithium2/3 Verify refuse every wrong-length signature; Ed25519 fixed-base recoding lemmas.",
+   text="Signature-decoding strictness on the real ML-DSA/Dilithium code of all six parameter sets: accepted iff the length is exactly SignatureSize (symbolic challenge and appended bytes), hint decoding equals FIPS 204 Alg. 21 (one accepted encoding per hint vector; shared with C04), eddilithium2/3 Verify refuse every wrong-length signature; Ed25519 fixed-base recoding lemmas. Hint index order (shared with C04) and the Ed25519 S < L range check (shared with C05).",
    note="Algebraic validity of honest signatures is outside the technique.",
    ref="§4 C02"),
  "C04": dict(
-   text="Real ML-DSA/Dilithium code of all six parameter sets decided by SMT: hint decoding equals FIPS 204 Algorithm 21 on every (omega+k)-byte string within the hint-count bound; decompose/makeHint/useHint/power2round and the modular reductions over their entire domains; coefficient (un)packing; rejection samplers and SampleInBall over an arbitrary XOF stream; ExpandMask counter framing for every 16-bit kappa; control skeleton of the signing loop (an iteration is abandoned exactly for the four rejection conditions of the specification with the exact bounds, kappa advances by l; every outcome of every check symbolic, two iterations).",
+   text="Real ML-DSA/Dilithium code of all six parameter sets decided by SMT: hint decoding equals FIPS 204 Algorithm 21 on every (omega+k)-byte string within the hint-count bound; decompose/makeHint/useHint/power2round and the modular reductions over their entire domains; coefficient (un)packing; rejection samplers and SampleInBall over an arbitrary XOF stream; ExpandMask counter framing for every 16-bit kappa; control skeleton of the signing loop (an iteration is abandoned exactly for the four rejection conditions of the specification with the exact bounds, kappa advances by l; every outcome of every check symbolic, two iterations). Hint index order inside one polynomial (two or three hints, every index value incl. 255).",
    note="Bounds: hint switch-over points <= 1 (quick) / <= 2 (thorough); signing loop <= 2 iterations with arithmetic callees as no-ops (data flow between them not checked); SHAKE uninterpreted; NTT / end-to-end bytes for all seeds outside the technique.",
    ref="§4 C04"),
  "C07": dict(
@@ -75,7 +75,7 @@ CHECKS = {
    note="AEAD modelled as uninterpreted function with free success flag; Nn=12; plaintext lengths 0..2; go/ssa (x/tools v0.29.0) and the executor's instruction semantics are trusted; purego build tags.",
    ref="§4 C08"),
  "C10": dict(
-   text="Panic-freedom obligations (index, slice bounds, nil dereference, division, explicit panic) decided by SMT for untrusted-input entry points on symbolic byte strings of every length in a stated range: hpke context/KEM unmarshalling, Goldilocks points, ML-DSA hints, BLS12-381 points, csidh keys, tkn formulas, eddilithium verification, tss/rsa key shares, NIST-curve scalars, prio3 histogram measurements; counterexamples replayed natively.",
+   text="Panic-freedom obligations (index, slice bounds, nil dereference, division, explicit panic) decided by SMT for untrusted-input entry points on symbolic byte strings of every length in a stated range: hpke context/KEM unmarshalling, Goldilocks points, ML-DSA hints, BLS12-381 points, csidh keys, tkn formulas, eddilithium verification, tss/rsa key shares, NIST-curve scalars, prio3 histogram measurements; counterexamples replayed natively. OPRF Finalize with a missing proof returns an error.",
    note="Input lengths bounded per harness; field arithmetic below decoders is uninterpreted.",
    ref="§4 C10"),
  "C12": dict(
